@@ -82,6 +82,13 @@ func (e *Env) optionalEvents(r *Run) []Event {
 			out = append(out, t)
 		}
 	}
+	for _, p := range e.pairs {
+		for _, end := range []*WSEnd{p.client, p.server} {
+			if end.wdlSet && !end.wdlExpired && end.flushWaiters > 0 && end.flushStalled(r) {
+				out = append(out, wsWriteDeadlineEv{end})
+			}
+		}
+	}
 	return out
 }
 
